@@ -1,7 +1,7 @@
 #!/usr/bin/env python3
 """Re-run every stored seeded change (/verif/seeded/*/patch.diff) against the current /repo HEAD in a scratch worktree:
 does it still apply and build, and does the property's check (static, on the patched scratch tree) report it?
-usage: reseed.py [id-prefix] [--update]   (--update rewrites detected_by_check/reported in meta.json, keeping the first verdict as detected_initially)"""
+usage: reseed.py [id-prefix[,id-prefix…]] [--update]   (--update rewrites detected_by_check/reported in meta.json, keeping the first verdict as detected_initially)"""
 import json, os, subprocess, sys, glob
 env = dict(os.environ, GOFLAGS='-mod=mod', GOPROXY='off', GOSUMDB='off', GOTOOLCHAIN='local')
 WT = os.environ.get("RESEED_WT", "/tmp/wt-reseed-%d" % os.getpid())
@@ -12,11 +12,11 @@ sh(f'git -C /repo worktree remove --force {WT}')
 rc, o = sh(f'git -C /repo worktree add -q --detach {WT} HEAD'); assert rc == 0, o
 args = [a for a in sys.argv[1:] if a != '--update']
 update = '--update' in sys.argv
-pref = args[0] if args else ''
+prefs = tuple(args[0].split(',')) if args else ('',)
 rows = []
 for d in sorted(glob.glob('/verif/seeded/*')):
     sid = os.path.basename(d)
-    if not sid.startswith(pref): continue
+    if not sid.startswith(prefs): continue
     meta = json.load(open(os.path.join(d, 'meta.json')))
     prop = meta['property']
     if meta.get('obsolete'):
